@@ -579,6 +579,10 @@ def make_obligations(pid, tier):
                  FUNCS + ['backends.libwayland_debug_output.parse:into_sink', 'core.connection_manager:ConnectionManager.message', 'core.wl.message:Message.__str__'],
                  'all well-formed histories of <= %d lines (exhaustive over the choices), untagged and tagged' % (6 if tier == 'quick' else 8), log_histories,
                  cases=[(k, tg) for k in ((3, 5, 6) if tier == 'quick' else (3, 5, 6, 7, 8)) for tg in (False, True)])]
+    if pid == 'C02':
+        from harness import c15
+        extra += [Ob('gdb-mode-attribution', 'symx', 'GDB mode (C15\'s event histories over the fake gdb): every message, on whatever connection address and thread it arrives, is displayed with the object it was attributed to, id + incarnation letter',
+                     c15.FUNCS if hasattr(c15, 'FUNCS') else FUNCS, 'all sequences of <= 3 libwayland events over 2 addresses x 2 threads', c15.history, cases=[2, 3], stubs=['fake gdb module'])]
     obs = [Ob('object-table-step', 'symx', 'Inv /\\ one ConnectionImpl.message step => spec /\\ Inv (histories of any length by induction)',
               FUNCS, bounds, step, cases=cases, stubs=STUBS, outside=outside, budget_s=1500 if tier == 'quick' else 6000),
            Ob('object-table-step-reachable', 'symx', 'reachability twin of the step obligation', FUNCS, bounds, twin,
